@@ -189,14 +189,14 @@ def run(check, an: Analysis):
     for path in an.paths(run_events):
         if path.normal:
             n += 1
-            last = [e for e in path.events if e.kind == 'test'][-1:]
-            verdict &= bool(last) and last[0]['value'] is False and \
-                ast.unparse(last[0].node) in ('activations', 'self._activations')
-    exits = [n_ for n_ in ast.walk(run_events.fn.node)
-             if isinstance(n_, (ast.Break, ast.Return))]
-    check.instance('Q', '_run_events:ends-at-quiescence', verdict and n > 0 and not exits,
-                   where_fn(run_events.fn), 'all %d normal exits follow a test of the wait '
-                   'queue being empty; no break/return' % n, analysed=n)
+            tests = [(i, e) for i, e in enumerate(path.events) if e.kind == 'test']
+            last = tests[-1:] if tests else []
+            verdict &= bool(last) and key_truth(last[0][1]) is False and \
+                rules.value_text(path, last[0][0], last[0][1].node) in (
+                    'activations', 'self._activations')
+    check.instance('Q', '_run_events:ends-at-quiescence', verdict and n > 0,
+                   where_fn(run_events.fn), 'on all %d normal exits the last decision '
+                   'taken is that the wait queue is empty' % n, analysed=n)
     # ---- H ------------------------------------------------------------------
     loop_mod = an.p.modules['usim._core.loop']
     handlers = [(t, h) for m, t, h in an.p.all_handlers() if m is loop_mod]
